@@ -211,9 +211,10 @@ Variable unzip : bytes -> option bytes.
 (* marshalPacketBody: returns the wire body and the flag it stores in the packet *)
 Definition marshal_body (thr : N) (has_enc : bool) (p : packet) : bytes * N :=
   let b := body_bytes (p_body p) in
+  let f0 := N.ldiff (p_flag p) fMarshal in      (* bits left by an earlier encode are dropped *)
   let '(b1, f1) :=
-    if (0 <? thr) && (thr <? lenN b) then (zip b, N.lor (p_flag p) fCompressed)
-    else (b, p_flag p) in
+    if (0 <? thr) && (thr <? lenN b) then (zip b, N.lor f0 fCompressed)
+    else (b, f0) in
   if (0 <? lenN b1) && has_enc then (enc b1, N.lor f1 fEncrypted) else (b1, f1).
 
 (* unmarshalPacketBody *)
